@@ -6,6 +6,7 @@ import (
 	"bytes"
 	"fmt"
 	"hash/fnv"
+	"reflect"
 	"runtime"
 	"strconv"
 	"strings"
@@ -36,6 +37,10 @@ type yieldState struct {
 	// sched: the scheduler's own goroutine (client code it runs inline, e.g.
 	// a close listener, must never wait for the scheduler)
 	sched uint64
+	// recursive: second read locks of a mutex the goroutine already read-holds
+	recursive int
+	// recursiveMet: ... of which a writer arrived while the reader waited
+	recursiveMet int
 }
 
 func yieldHash(seed uint64, site string, n uint64) uint64 {
@@ -76,10 +81,10 @@ func (st *yieldState) visit(site string) (yield bool, n uint64) {
 		return false, 0
 	}
 	switch kind {
-	case "after-lock":
+	case "after-lock", "after-rlock":
 		st.held[g]++
 		return false, 0
-	case "after-unlock":
+	case "after-unlock", "after-runlock":
 		if st.held[g] > 0 {
 			st.held[g]--
 		}
@@ -104,9 +109,25 @@ func (st *yieldState) visit(site string) (yield bool, n uint64) {
 // calling goroutine by 1-3 simulated milliseconds the first two times and then
 // every other time it is reached (decided by the seed, the site and the count
 // of visits, never by a clock or a shared generator).
+// activeYield: the scheduling-point state of the run (for the lock-up observer)
+var activeYield atomic.Pointer[yieldState]
+
+// heldByGoroutine: how many client mutexes goroutine id holds by the
+// instrumenter's count; known is false when the run has no such count.
+func heldByGoroutine(id uint64) (n int, known bool) {
+	st := activeYield.Load()
+	if st == nil {
+		return 0, false
+	}
+	st.mu.Lock()
+	defer st.mu.Unlock()
+	return st.held[id], true
+}
+
 func installYield(seed uint64) *yieldState {
 	st := &yieldState{seed: seed, count: map[string]uint64{}, sites: map[string]bool{}, held: map[uint64]int{}}
-	simyield.SetHook(func(site string) {
+	activeYield.Store(st)
+	plain := func(site string) {
 		ok, n := st.visit(site)
 		if !ok {
 			return
@@ -117,8 +138,118 @@ func installYield(seed uint64) *yieldState {
 		}
 		atomic.AddInt64(&st.fired, 1)
 		time.Sleep(time.Duration(1+(x>>8)%3) * time.Millisecond)
+	}
+	simyield.SetHook(plain)
+	// Read locks taken twice. A goroutine that holds a read lock and asks for
+	// it again deadlocks as soon as a writer has queued up in between (Go's
+	// RWMutex lets no new reader pass a waiting writer). The window is a few
+	// instructions wide, so the run would have to be very lucky; the simulator
+	// knows both ends of it and schedules it: the reader waits at its second
+	// RLock (holding the first) until some goroutine arrives at Lock of the
+	// same mutex, or for 300 simulated milliseconds. If the client then stops
+	// for good, the lock-up observer reports it with the stacks.
+	var rmu simkit.QuietMutex
+	rheld := map[uint64]map[uintptr]int{}    // goroutine -> mutex -> read locks held
+	waiting := map[uintptr][]chan struct{}{} // mutex -> readers waiting for a writer
+	simyield.SetHookM(func(site string, mu any) {
+		kind := site[strings.LastIndexByte(site, ':')+1:]
+		id := mutexID(mu)
+		if id != 0 {
+			g := goid()
+			switch kind {
+			case "before-rlock":
+				rmu.Lock()
+				again := rheld[g][id] > 0
+				var ch chan struct{}
+				if again {
+					ch = make(chan struct{}, 1)
+					waiting[id] = append(waiting[id], ch)
+				}
+				rmu.Unlock()
+				if again {
+					st.mu.Lock()
+					st.recursive++
+					st.mu.Unlock()
+					select {
+					case <-ch:
+						// let the writer reach its Lock first
+						for i := 0; i < 2000; i++ {
+							runtime.Gosched()
+						}
+						st.mu.Lock()
+						st.recursiveMet++
+						st.mu.Unlock()
+					case <-time.After(300 * time.Millisecond):
+					}
+					rmu.Lock()
+					w := waiting[id]
+					for i := range w {
+						if w[i] == ch {
+							waiting[id] = append(w[:i:i], w[i+1:]...)
+							break
+						}
+					}
+					rmu.Unlock()
+					return
+				}
+			case "after-rlock":
+				rmu.Lock()
+				if rheld[g] == nil {
+					rheld[g] = map[uintptr]int{}
+				}
+				rheld[g][id]++
+				rmu.Unlock()
+			case "after-runlock":
+				rmu.Lock()
+				if rheld[g][id] > 0 {
+					rheld[g][id]--
+					if rheld[g][id] == 0 {
+						delete(rheld[g], id)
+					}
+					if len(rheld[g]) == 0 {
+						delete(rheld, g)
+					}
+				}
+				rmu.Unlock()
+			case "before-lock":
+				// (after the point's own delay: the next thing this goroutine does
+				// is to ask for the write lock)
+				plain(site)
+				rmu.Lock()
+				for _, ch := range waiting[id] {
+					select {
+					case ch <- struct{}{}:
+					default:
+					}
+				}
+				rmu.Unlock()
+				return
+			}
+		}
+		plain(site)
 	})
 	return st
+}
+
+// mutexID: the identity of the mutex an instrumented statement works on. mu is
+// the address of the expression the method was called on: a pointer variable
+// (the object it points to counts), or a mutex / a struct embedding one.
+func mutexID(mu any) uintptr {
+	rv := reflect.ValueOf(mu)
+	if rv.Kind() != reflect.Ptr || rv.IsNil() {
+		return 0
+	}
+	e := rv.Elem()
+	for e.Kind() == reflect.Interface && !e.IsNil() {
+		e = e.Elem()
+	}
+	if e.Kind() == reflect.Ptr {
+		if e.IsNil() {
+			return 0
+		}
+		return e.Pointer()
+	}
+	return rv.Pointer()
 }
 
 // installYieldParked arms the scheduling points for an engine whose goroutines
@@ -145,7 +276,14 @@ func installYieldParked(sim *simkit.Sim, seed uint64) *yieldState {
 
 func (st *yieldState) stop() (fired int, sites int) {
 	simyield.SetHook(nil)
+	simyield.SetHookM(nil)
 	st.mu.Lock()
 	defer st.mu.Unlock()
 	return int(atomic.LoadInt64(&st.fired)), len(st.sites)
+}
+
+func (st *yieldState) recursiveReadLocks() (n, metWriter int) {
+	st.mu.Lock()
+	defer st.mu.Unlock()
+	return st.recursive, st.recursiveMet
 }
